@@ -193,6 +193,23 @@ Proof. exact tx4_eqb_spec. Qed.
 Theorem C04_oview4_eqb_spec : forall a b, oview4_eqb a b = true <-> a = b.
 Proof. exact oview4_eqb_spec. Qed.
 
+(** Parse-path independence, as demanded by [prop_case] of every re-parse observation: whatever
+    the fragmentation of the reader, the identifier of the parsed transaction is the expected one
+    (SHA-256d of the consumed bytes before v5), so two fragmentations agree. *)
+Theorem C04_reparse_independent : forall v k k' e o o',
+  prop_case (CReparse v k e o) = true -> prop_case (CReparse v k' e o') = true -> o = o' /\ o = e.
+Proof. exact reparse_independent. Qed.
+
+(** Raw hash-type bytes (pre-v5 signatures may carry any byte): the base type is the low five
+    bits, ANYONECANPAY is bit 7, bits 0x20 / 0x40 change no exclusion. [C04_v4_sighash_exclusions]
+    and [C04_v4_sighash_tree_iff_view] above quantify over every hash type, not the six named. *)
+Theorem C04_hash_type_raw : forall ht,
+  flag_single ht = flag_single (N.land ht 31) /\ flag_none ht = flag_none (N.land ht 31)
+  /\ flag_acp ht = N.testbit ht 7
+  /\ flag_single (N.lor ht 96) = flag_single ht /\ flag_none (N.lor ht 96) = flag_none ht
+  /\ flag_acp (N.lor ht 96) = flag_acp ht.
+Proof. exact flags_raw. Qed.
+
 (** The cached evaluation used by the correspondence is the evaluation of the tree. *)
 Theorem C04_eval_txid_cached : forall t, eval (txid_from t (eval_parts (parts_of t))) = eval (txid_tree t).
 Proof. exact eval_txid_cached. Qed.
